@@ -1,6 +1,6 @@
 (* Files that are not members of the logger's file family are ignored - NumbersDirect naming WITH a cleanup strategy
    (NumCleanupForeign.v does this for Numbers naming; NumDForeign.v for NumbersDirect without cleanup):
-   the cleanup (cleanup_impl with direct = true) lists, removes and compresses family files only - numd_member rejects the
+   the cleanup (cleanup_impl with cur = Some (the file being written)) lists, removes and compresses family files only - numd_member rejects the
    foreign names, so they are not in the listing it works on; the archive name of a listed file is a family name, too.
    A run in a directory pre-filled with foreign files is, step by step, the embedding (ForeignFs.embed) of the run in the
    empty directory: same observations, foreign files untouched (neither removed nor compressed), family files as in the
@@ -60,7 +60,7 @@ Proof.
 Qed.
 
 (* ---- the cleanup ---- *)
-Lemma cleanup_body_embed_dk w ll total : fsfx (c_spec c) <> Some gz_sfx ->
+Lemma cleanup_body_embed_dk w ll total cur : fsfx (c_spec c) <> Some gz_sfx ->
   (let '(fl, w1) := tick (embw w) in
    if fl then (@Err unit, w1) else
    match list_log_gz (woff w1) (c_spec c) (fixed_of c w1) (wfs w1) IFNum with
@@ -68,7 +68,7 @@ Lemma cleanup_body_embed_dk w ll total : fsfx (c_spec c) <> Some gz_sfx ->
    | Some files =>
      let '(ok0, w1', files') := remove_redundant w1 (redundant_gz files) files in
      if negb ok0 then (Err, w1') else
-     let '(ok, w2) := cleanup_loop w1' files' 0 ll total in
+     let '(ok, w2) := cleanup_loop w1' files' 0 ll total cur in
      ((if ok then Ok tt else Err), w2)
    end)
   = lw fn fi (let '(fl, w1) := tick w in
@@ -78,7 +78,7 @@ Lemma cleanup_body_embed_dk w ll total : fsfx (c_spec c) <> Some gz_sfx ->
         | Some files =>
           let '(ok0, w1', files') := remove_redundant w1 (redundant_gz files) files in
           if negb ok0 then (Err, w1') else
-          let '(ok, w2) := cleanup_loop w1' files' 0 ll total in
+          let '(ok, w2) := cleanup_loop w1' files' 0 ll total cur in
           ((if ok then Ok tt else Err), w2)
         end).
 Proof.
@@ -91,11 +91,11 @@ Proof.
   destruct (remove_redundant w1 (redundant_gz files) files) as [[ok0 w1'] files'] eqn:Er.
   destruct ok0; cbn [negb]; [|reflexivity].
   rewrite cleanup_loop_embed by (intros n Hn; apply Hown; eapply remove_redundant_incl; eassumption).
-  destruct (cleanup_loop w1' files' 0 ll total) as [ok w2]. reflexivity.
+  destruct (cleanup_loop w1' files' 0 ll total cur) as [ok w2]. reflexivity.
 Qed.
 
 (* the cleanup of a direct naming (the file being written is in the listing; a first limit of 0 counts as 1) *)
-Lemma cleanup_impl_embed_dk w : cleanup_impl c (embw w) kc IFNum true = lw fn fi (cleanup_impl c w kc IFNum true).
+Lemma cleanup_impl_embed_dk w d : cleanup_impl c (embw w) kc IFNum (Some d) = lw fn fi (cleanup_impl c w kc IFNum (Some d)).
 Proof.
   destruct Hk as [->|[_ Hs]]; [reflexivity|].
   unfold cleanup_impl. destruct kc as [|a|b|a b]; [reflexivity| | |]; cbn [andb]; apply cleanup_body_embed_dk; exact Hs.
@@ -144,7 +144,7 @@ Proof.
   destruct (roll_new w2 crit (c_append c) (name_of c w1 (Some (number_infix idx)))) as [r3 w3]. cbn [lw fst snd].
   destruct r3 as [roll| |]; cbn [lw fst snd bind]; [|reflexivity|reflexivity].
   cbn [ns_filter naming_writes_direct]. rewrite !cleanup_match_dk, cleanup_impl_embed_dk, bg_false_dk.
-  destruct (cleanup_impl c w3 kc IFNum true) as [r4 w4]. cbn [lw fst snd]. destruct r4; reflexivity.
+  destruct (cleanup_impl c w3 kc IFNum (Some _)) as [r4 w4]. cbn [lw fst snd]. destruct r4; reflexivity.
 Qed.
 
 (* the states of a writer with NumbersDirect naming and the cleanup strategy kc (no cleanup thread) *)
@@ -162,7 +162,7 @@ Proof.
   destruct (open_log_file c w1 (Some (number_infix idx))) as [[[wr path]| |] w2]; cbn [bind]; try discriminate.
   destruct (roll_new w2 crit (c_append c) path) as [[roll| |] w3]; cbn [bind]; try discriminate.
   rewrite cleanup_match_dk, bg_false_dk.
-  destruct (cleanup_impl c w3 kc (ns_filter (NSNumD idx)) (naming_writes_direct NNumbersDirect)) as [[u| |] w4];
+  destruct (cleanup_impl c w3 kc (ns_filter (NSNumD idx)) (if naming_writes_direct NNumbersDirect then Some path else None)) as [[u| |] w4];
     cbn [bind]; try discriminate.
   intros H. injection H as <- _. cbn. split; [eauto | split; reflexivity].
 Qed.
@@ -184,7 +184,7 @@ Proof.
     by (destruct okf; [reflexivity | symmetry; apply report_embed]).
   rewrite w_drop_embed, reset_size_and_date_embed by exact Hn.
   unfold cleanup_or_queue. cbn [ns_filter ns_writes_direct]. rewrite cleanup_impl_embed_dk.
-  destruct (cleanup_impl c (w_drop (if okf then w2a else report EFlush w2a) wra) kc IFNum true) as [rc w4]. reflexivity.
+  destruct (cleanup_impl c (w_drop (if okf then w2a else report EFlush w2a) wra) kc IFNum (Some _)) as [rc w4]. reflexivity.
 Qed.
 
 Definition good_flw_dk (s : flw) : Prop := f_cfg s = c /\ f_poisoned s = false /\ good_inner_dk (f_inner s).
